@@ -44,7 +44,9 @@ structure FrontPassed (J : Inst) (d : Desc) (pubs : List Nat) (acc : Acceptable)
   front : (Parse.verifyFront (frontAir J d) p).1 = .pass
   air : Parse.airNew (frontAir J d) p.context.traceInfo p.context.options = some ncols
   ext : extOps J p.context.options.fieldExt = some E
-  channel : channelParse (chanCfg J p.context ncols) p = .ok c
+  channel : channelParse (chanCfg J d p.context ncols) p = .ok c
+  /-- (Lagrange kernel column) the serialized GKR proof, if there is one, decodes with no byte left over -/
+  gkr : (d.lagrange && decide (p.context.traceInfo.aux > 0) && gkrUndecodable c.gkr) = false
   /-- the computation fits the trace shape of the proof, with the auxiliary random elements the verifier draws -/
   shape : shapeOk J E d pubs acc p.context c = true
 
@@ -87,18 +89,22 @@ theorem refVerify_ok_iff (J : Inst) (d : Desc) (pubs : List Nat) (acc : Acceptab
             rename_i c hc
             split at h
             · cases h
-            · rename_i hprep
-              refine ⟨p, ncols, E, c, ⟨hp, Decidable.of_not_not hmod, hpol, hfront, hair, hext, hc, ?_⟩, ?_⟩
-              · simpa using hprep
-              · unfold Verdict.ofExcept at h
-                split at h
-                · rename_i u hu; cases u; exact hu
-                · cases h
+            · rename_i hgkr
+              split at h
+              · cases h
+              · rename_i hprep
+                refine ⟨p, ncols, E, c, ⟨hp, Decidable.of_not_not hmod, hpol, hfront, hair, hext, hc, ?_, ?_⟩, ?_⟩
+                · simpa using hgkr
+                · simpa using hprep
+                · unfold Verdict.ofExcept at h
+                  split at h
+                  · rename_i u hu; cases u; exact hu
+                  · cases h
           · cases h
     · cases h
     · cases h
     · cases h
-  · rintro ⟨p, ncols, E, c, ⟨hp, hmod, hpol, hfront, hair, hext, hc, hprep⟩, hv⟩
+  · rintro ⟨p, ncols, E, c, ⟨hp, hmod, hpol, hfront, hair, hext, hc, hgkr, hprep⟩, hv⟩
     unfold refVerify
     rw [hp]
     simp only
@@ -112,7 +118,7 @@ theorem refVerify_ok_iff (J : Inst) (d : Desc) (pubs : List Nat) (acc : Acceptab
     simp only
     rw [hc]
     simp only
-    rw [hprep, hv]
+    rw [hgkr, hprep, hv]
     rfl
 
 /-! ## (2') unfolded: the individual checks -/
@@ -164,22 +170,34 @@ theorem evaluateConstraints_total {α : Type} (O : Divisor.Ops α) (hdiv : ∀ a
   exact ⟨_, rfl⟩
 
 /-- the value the reference verifier compares is the composition model's `evaluate_constraints` on the OOD
-    frames of both segments (not the fallback of the total wrapper) whenever the computation fits the trace shape -/
-theorem evalConstraints_is_model (E : EOps) (d : Desc) (pubs : List Nat) (ti : Serde.TraceInfo) (rands : List El)
+    frames of both segments (not the fallback of the total wrapper) whenever the computation fits the trace shape,
+    plus - for an AIR with a Lagrange kernel column - the Lagrange kernel transition and boundary terms -/
+theorem evalConstraints_is_model (E : EOps) (d : Desc) (pubs : List Nat) (ti : Serde.TraceInfo) (rands lagRands : List El)
     (h : (prepOf E d pubs ti rands).isSome = true) (coeffs oodTrace : List El) (z : El) :
-    ∃ air P, prepOf E d pubs ti rands = some (air, P) ∧
-      Composition.evaluateConstraints E.div air P (oodFrames E ti.main oodTrace) (cell E rands)
+    ∃ air P base, prepOf E d pubs ti rands = some (air, P) ∧
+      Composition.evaluateConstraints E.div air P (oodFrames E ti.main (ti.main + auxFrameWidth d ti) oodTrace) (cell E rands)
         (coeffs.take (d.air.constraints.length + d.auxCons.length))
         ((coeffs.drop (d.air.constraints.length + d.auxCons.length)).take (d.air.assertions.length + d.auxAsserts.length)) z
-        = some (evalConstraints E d pubs ti rands coeffs oodTrace z) := by
+        = some base ∧
+      evalConstraints E d pubs ti rands lagRands coeffs oodTrace z =
+        if d.lagrange then
+          E.add (E.add base
+            (lagrangeTransition E (splitOod (ti.main + auxFrameWidth d ti) oodTrace).2.2 lagRands
+              ((coeffs.drop (d.air.constraints.length + d.auxCons.length + (d.air.assertions.length + d.auxAsserts.length))).take
+                (Nat.log2 ti.length)) z))
+            (lagrangeBoundary E (splitOod (ti.main + auxFrameWidth d ti) oodTrace).2.2 lagRands
+              (cell E (coeffs.drop (d.air.constraints.length + d.auxCons.length + (d.air.assertions.length + d.auxAsserts.length)))
+                (Nat.log2 ti.length)) z)
+        else base := by
   cases hq : prepOf E d pubs ti rands with
   | none => rw [hq] at h; simp at h
   | some ap =>
     obtain ⟨air, P⟩ := ap
-    refine ⟨air, P, rfl, ?_⟩
     obtain ⟨v, hv⟩ := evaluateConstraints_total E.div (fun a b => ⟨_, rfl⟩) air P
-      (oodFrames E ti.main oodTrace) (cell E rands) (coeffs.take (d.air.constraints.length + d.auxCons.length))
+      (oodFrames E ti.main (ti.main + auxFrameWidth d ti) oodTrace) (cell E rands)
+      (coeffs.take (d.air.constraints.length + d.auxCons.length))
       ((coeffs.drop (d.air.constraints.length + d.auxCons.length)).take (d.air.assertions.length + d.auxAsserts.length)) z
+    refine ⟨air, P, v, rfl, hv, ?_⟩
     unfold evalConstraints
     rw [hq]
     simp only []
@@ -213,11 +231,11 @@ structure ChecksPassed (J : Inst) (E : EOps) (d : Desc) (pubs : List Nat) (acc :
   challenges : VerifierChecks.challenges (mkVerifier J E d pubs acc) ctx (committedOf J c) = .ok ch
   /-- the auxiliary random elements are the draws that follow the main trace commitment (none for a single-segment
       trace), and the computation fits the trace shape with them -/
-  auxRands : auxRandsOf J E d pubs acc ctx c = some ch.auxRands
+  auxRands : auxRandsOf J E d pubs acc ctx c = some (ch.auxRands, ch.lagRands)
   shape : (prepOf E d pubs ctx.traceInfo ch.auxRands).isSome = true
   /-- OOD consistency: `evaluate_constraints` (main and auxiliary transition constraints and boundary groups) at `z`
       on the OOD trace frame equals `Σ z^(i·n) · H_i(z)` -/
-  ood : evalConstraints E d pubs ctx.traceInfo ch.auxRands ch.coeffs (committedOf J c).oodTrace ch.z
+  ood : evalConstraints E d pubs ctx.traceInfo ch.auxRands ch.lagRands ch.coeffs (committedOf J c).oodTrace ch.z
       = combineOod E ctx.traceInfo.length ch.z (committedOf J c).oodEvals
   /-- proof of work -/
   pow : ctx.options.grinding ≤ Coin.checkLeadingZeros (hashOps J) ch.coinAtQueries c.powNonce
@@ -237,7 +255,8 @@ structure ChecksPassed (J : Inst) (E : EOps) (d : Desc) (pubs : List Nat) (acc :
   /-- the FRI verifier accepts the DEEP evaluations computed by the modelled composer (main and auxiliary columns) -/
   fri : friVerify (mkVerifier J E d pubs acc) (airInst J E d pubs ctx) (committedOf J c) (openedOf J c) ch
       (deepCompose E ctx.traceInfo.length (ctx.traceInfo.length * ctx.options.blowup) ctx.traceInfo.main
-        (ctx.traceInfo.main + ctx.traceInfo.aux) ch.positions ch.z ch.deep
+        (ctx.traceInfo.main + ctx.traceInfo.aux) (ctx.traceInfo.main + auxFrameWidth d ctx.traceInfo)
+        (if d.lagrange then some (numCols J d ctx) else none) ch.positions ch.z ch.deep
         ((openedOf J c).traceOpenings.map (·.rows)) (openedOf J c).constraintOpening.rows
         (committedOf J c).oodTrace (committedOf J c).oodEvals) = .ok ()
   /-- the remainder is the committed one: its hash is the commitment that follows the layer commitments -/
@@ -260,18 +279,19 @@ theorem airInst_degree (J : Inst) (E : EOps) (d : Desc) (pubs : List Nat) (ctx :
 theorem airInst_multiSegment (J : Inst) (E : EOps) (d : Desc) (pubs : List Nat) (ctx : Serde.Context) :
     (airInst J E d pubs ctx).multiSegment = decide (ctx.traceInfo.aux > 0) := by simp only [mkVerifier, airInst, coinOps]
 theorem airInst_lagrange (J : Inst) (E : EOps) (d : Desc) (pubs : List Nat) (ctx : Serde.Context) :
-    (airInst J E d pubs ctx).lagrange = false := by simp only [mkVerifier, airInst, coinOps]
+    (airInst J E d pubs ctx).lagrange = d.lagrange := by simp only [mkVerifier, airInst, coinOps]
 theorem airInst_numAuxRands (J : Inst) (E : EOps) (d : Desc) (pubs : List Nat) (ctx : Serde.Context) :
     (airInst J E d pubs ctx).numAuxRands = ctx.traceInfo.rands := by simp only [mkVerifier, airInst, coinOps]
 theorem airInst_evalConstraints (J : Inst) (E : EOps) (d : Desc) (pubs : List Nat) (ctx : Serde.Context)
     (co ar lr ood : List El) (z : El) :
-    (airInst J E d pubs ctx).evalConstraints co ar lr ood z = evalConstraints E d pubs ctx.traceInfo ar co ood z := by
+    (airInst J E d pubs ctx).evalConstraints co ar lr ood z = evalConstraints E d pubs ctx.traceInfo ar lr co ood z := by
   simp only [mkVerifier, airInst, coinOps]
 theorem airInst_combineOod (J : Inst) (E : EOps) (d : Desc) (pubs : List Nat) (ctx : Serde.Context) :
     (airInst J E d pubs ctx).combineOod = combineOod E ctx.traceInfo.length := by simp only [mkVerifier, airInst, coinOps]
 theorem airInst_deepCompose (J : Inst) (E : EOps) (d : Desc) (pubs : List Nat) (ctx : Serde.Context) :
     (airInst J E d pubs ctx).deepCompose = deepCompose E ctx.traceInfo.length (ctx.traceInfo.length * ctx.options.blowup)
-      ctx.traceInfo.main (ctx.traceInfo.main + ctx.traceInfo.aux) := by simp only [mkVerifier, airInst, coinOps]
+      ctx.traceInfo.main (ctx.traceInfo.main + ctx.traceInfo.aux) (ctx.traceInfo.main + auxFrameWidth d ctx.traceInfo)
+      (if d.lagrange then some (numCols J d ctx) else none) := by simp only [mkVerifier, airInst, coinOps]
 theorem mk_leadingZeros (J : Inst) (E : EOps) (d : Desc) (pubs : List Nat) (acc : Acceptable) :
     (mkVerifier J E d pubs acc).coin.leadingZeros = Coin.checkLeadingZeros (hashOps J) := by simp only [mkVerifier, airInst, coinOps]
 theorem mk_drawInts (J : Inst) (E : EOps) (d : Desc) (pubs : List Nat) (acc : Acceptable) :
@@ -289,42 +309,48 @@ theorem openingOk_iff {C D V : Type} [DecidableEq D] [DecidableEq V] (W : Verifi
   unfold openingOk Opening.proof
   exact beq_iff_eq
 
-/-- the auxiliary random elements of the challenge phase are the replayed draws `auxRandsOf`: for a single-segment
-    trace none, for a multi-segment trace the `trace_info.num_aux_segment_rands` draws from the coin that has
-    absorbed context, public inputs and the main trace commitment -/
+/-- the auxiliary and Lagrange random elements of the challenge phase are the replayed `auxRandsOf`: for a
+    single-segment trace none; for a multi-segment trace - from the coin that has absorbed context, public inputs
+    and the main trace commitment - first the Lagrange random elements the GKR verifier draws (AIR with a Lagrange
+    kernel column), then the `trace_info.num_aux_segment_rands` auxiliary ones -/
 theorem auxRandsOf_eq (J : Inst) (E : EOps) (d : Desc) (pubs : List Nat) (acc : Acceptable) (ctx : Serde.Context)
     (c : ParsedChannel) (ch : Challenges (Coin.Coin Dg) Dg El)
     (hch : VerifierChecks.challenges (mkVerifier J E d pubs acc) ctx (committedOf J c) = .ok ch) :
-    auxRandsOf J E d pubs acc ctx c = some ch.auxRands := by
+    auxRandsOf J E d pubs acc ctx c = some (ch.auxRands, ch.lagRands) := by
   obtain ⟨r0, rest, c2, log2, _, _, _, _, _, _, hroots, haux, _⟩ := (challenges_ok hch).ex
-  rw [air_eq] at haux
-  unfold auxPhase at haux
-  rw [airInst_multiSegment, airInst_lagrange, airInst_numAuxRands] at haux
   unfold auxRandsOf
-  by_cases h0 : ctx.traceInfo.aux = 0
-  · rw [if_pos h0]
-    have : decide (ctx.traceInfo.aux > 0) = false := by simp [h0]
-    rw [this] at haux
-    simp only [Bool.not_false, if_true] at haux
-    injection haux with haux
-    simp only [Prod.mk.injEq] at haux
-    rw [← haux.1]
-  · rw [if_neg h0]
-    have : decide (ctx.traceInfo.aux > 0) = true := by simp; omega
-    rw [this] at haux
-    simp only [Bool.not_true, Bool.false_eq_true, if_false] at haux
-    simp only []
-    rw [hroots]
-    simp only []
-    split at haux
-    · cases haux
-    · split at haux
-      · cases haux
-      · rename_i ar c3 hdraw
-        injection haux with haux
-        simp only [Prod.mk.injEq] at haux
-        rw [hdraw, ← haux.1]
-        rfl
+  simp only []
+  rw [hroots]
+  simp only []
+  rw [haux]
+
+/-- the order inside the auxiliary phase of an AIR with a Lagrange kernel column: the GKR verifier runs on the coin
+    reseeded with the main commitment and its draws come BEFORE the auxiliary random elements; the coin is reseeded
+    with the auxiliary commitment only afterwards -/
+theorem auxPhase_lagrange_order {C D V : Type} (K : CoinOps C D V) (A : AirInst C D V) (cm : Committed V D) (c1 : C)
+    (r0 : D) (rest : List D) (ar lr : List V) (c2 : C) (log : List D) (hm : A.multiSegment = true)
+    (hl : A.lagrange = true) (h : auxPhase K A cm c1 r0 rest = .ok (ar, lr, c2, log)) :
+    ∃ g r1 rest' cg c3, cm.gkr = some g ∧ rest = r1 :: rest' ∧ A.gkrVerify g c1 = some (lr, cg) ∧
+      drawMany K A.numAuxRands cg = some (ar, c3) ∧ c2 = K.reseed c3 r1 ∧ log = [r0, r1] := by
+  unfold auxPhase at h
+  rw [hm, hl] at h
+  simp only [Bool.not_true, Bool.false_eq_true, if_false, if_true] at h
+  split at h
+  · cases h
+  · rename_i r1 rest'
+    split at h
+    · cases h
+    · rename_i g hg
+      split at h
+      · cases h
+      · rename_i lag cg hgv
+        split at h
+        · cases h
+        · rename_i ar' c3 hd
+          injection h with h
+          simp only [Prod.mk.injEq] at h
+          obtain ⟨rfl, rfl, rfl, rfl⟩ := h
+          exact ⟨g, r1, rest', cg, c3, hg, rfl, hgv, hd, rfl, rfl⟩
 
 /-- **an `ok` verdict certifies every individual check** on the content parsed from the bytes -/
 theorem refVerify_ok_implies (J : Inst) (d : Desc) (pubs : List Nat) (acc : Acceptable) (bs : List Nat)
@@ -698,7 +724,7 @@ theorem refVerify_never_panics_partial (J : Inst) (hJ : InstOk J) (d : Desc) (pu
               obtain ⟨hctx, hnq, _, hlen, _⟩ := hpok
               obtain ⟨hm0, hw, _, _⟩ := ti_facts _ hctx.1
               obtain ⟨_, _, _, _, hf2, hext, _, _⟩ := opt_facts _ hctx.2.1
-              refine channelParse_np (chanCfg J p.context ncols) p hJ.digestNoPanic hlen ?_ (by omega)
+              refine channelParse_np (chanCfg J d p.context ncols) p hJ.digestNoPanic hlen ?_ (by omega)
                 ⟨hm0, by show p.context.traceInfo.main ≤ 255; omega⟩ ?_
                 ⟨airNew_pos _ _ _ _ hair, hcols _ _ _ hair⟩ ?_ ?_ hc
               · show 1 ≤ p.context.traceInfo.numSegments
@@ -717,16 +743,20 @@ theorem refVerify_never_panics_partial (J : Inst) (hJ : InstOk J) (d : Desc) (pu
             · cases h
             · rename_i c hc
               split at h
-              · injection h with h; injection h with h; exact Or.inr (Or.inl h.symm)
-              · rename_i hprep
-                refine Or.inr (Or.inr ⟨p, ncols, E, c,
-                  ⟨hp, Decidable.of_not_not hmod, hpol, hpass, hair, hext, hc, by simpa using hprep⟩, ?_⟩)
-                unfold Verdict.ofExcept at h
+              · cases h
+              · rename_i hgkr
                 split at h
-                · cases h
-                · rename_i e he
-                  injection h with h
-                  rw [he, h]
+                · injection h with h; injection h with h; exact Or.inr (Or.inl h.symm)
+                · rename_i hprep
+                  refine Or.inr (Or.inr ⟨p, ncols, E, c,
+                    ⟨hp, Decidable.of_not_not hmod, hpol, hpass, hair, hext, hc, by simpa using hgkr,
+                      by simpa using hprep⟩, ?_⟩)
+                  unfold Verdict.ofExcept at h
+                  split at h
+                  · cases h
+                  · rename_i e he
+                    injection h with h
+                    rw [he, h]
           · injection h with h; injection h with h; exact Or.inl h.symm
   · cases h
   · cases h
